@@ -393,6 +393,26 @@ def run(p, report, tier):
                 floor=2)
     from . import c02 as _c02
     _c02.check_minmax_offsets(p, report, funcs, "R1.9")
+    # ---------------- round 6
+    report.rule("R1.11", "what simple_batch returns was chosen by a selection primitive: every store into its returned index "
+                "array is an allocation, rand_argmax / a generator draw, or a reshaping of itself - an `argsort`-based "
+                "shortcut ranks NaN (non-candidates) among the numbers (shared with C18 R18.2)", floor=3)
+    from . import c18 as _c18
+    _sub18 = type(report)("C18")
+    _c18.run(p, _sub18, "quick")
+    for o in _sub18.obligations:
+        if o.rule == "R18.2" and "returned indices" in o.construct:
+            report.add("R1.11", o.entity, o.construct, o.loc, o.ok, detail=o.detail)
+    report.rule("R1.12", "after the scatter through the candidate mapping nothing removes OFFERED samples from the utilities "
+                "handed to simple_batch: a constant NaN / -inf store into that array (outside a selection loop) is indexed by "
+                "the mapping role (its complement), never by labels or other data - the batch size was clipped to the number "
+                "of candidates, so every masked candidate makes the batch shorter than min(batch_size, n_candidates)", floor=15)
+    check_no_candidate_removal(p, report, funcs)
+    report.rule("R1.13", "a utility is never the quotient by a count that may be zero: where an error / score is divided by a "
+                "counter that starts at 0 and grows only under emptiness tests (or by the sum / length of a list filled "
+                "that way), the division is guarded by a zero test of that counter (0/0 raises for python numbers and is "
+                "NaN for numpy ones: the query fails, or the last remaining candidate gets NaN and is never returned)", floor=2)
+    check_zero_guarded_quotients(p, report, funcs)
     report.assumptions += [
         "dependence is flow-insensitive inside a loop body (over-approximates real dependence: R1.4 is a necessary condition)",
         "custom loops filling all batch_size slots, termination of numerical subroutines and dtype of the result are not decided",
@@ -1699,3 +1719,143 @@ def check_choice_replace(p, report, funcs, facts):
             report.add("R1.8", f.qual, f"choice {site_id(n, 80)}", f"{f.file}:{n.lineno}", single or norep,
                        detail="size 1" if single else ("replace=False" if norep else
                        "multi-element draw with replacement: the batch may contain duplicates"))
+
+
+NAN_CONSTS = {"np.nan", "numpy.nan", "float('nan')", 'float("nan")', "-np.inf", "-numpy.inf", "np.NaN", "math.nan", "-math.inf",
+              "np.NINF", "-float('inf')"}
+
+
+def check_no_candidate_removal(p, report, funcs):
+    for f in funcs:
+        if f.name != "query" or f.cls is None:
+            continue
+        sb = [c for c in ast.walk(f.node) if isinstance(c, ast.Call) and callname(c) == "simple_batch" and c.args]
+        if not sb:
+            continue
+        maps = _mapping_names(f)
+        tree = FuncTree(f.node)
+        for c in sb:
+            u = c.args[0]
+            base = base_name(u) if isinstance(u, (ast.Name, ast.Subscript)) else None
+            if base is None:
+                continue
+            # aliases of the utilities array by plain assignment
+            names = {base}
+            for _ in range(2):
+                for a in ast.walk(f.node):
+                    if isinstance(a, ast.Assign) and isinstance(a.value, ast.Name) and a.value.id in names:
+                        names |= {t.id for t in a.targets if isinstance(t, ast.Name)}
+            bad = None
+            n_st = 0
+            for a in ast.walk(f.node):
+                if not (isinstance(a, ast.Assign) and len(a.targets) == 1 and isinstance(a.targets[0], ast.Subscript)
+                        and base_name(a.targets[0]) in names and a.lineno < c.lineno):
+                    continue
+                if ast.unparse(a.value).replace(" ", "") not in {x.replace(" ", "") for x in NAN_CONSTS}:
+                    continue
+                if any(isinstance(o, (ast.For, ast.While)) for (_s, o, _f, _i) in tree.ancestors(a)):
+                    continue   # selection loops are judged by R1.4m
+                n_st += 1
+                ix = index_names(a.targets[0])
+                if not (ix & maps) and bad is None:
+                    bad = a
+            report.add("R1.12", f.qual, f"utilities of `{norm_stmt(tree.stmt_of(c), 50)}` keep every offered candidate",
+                       f"{f.file}:{(bad or c).lineno}", bad is None, nontrivial=n_st > 0,
+                       detail=f"{n_st} constant NaN/-inf store(s), each indexed through the mapping" if bad is None else
+                       f"`{norm_stmt(bad, 60)}` blanks entries selected by something other than the candidate mapping: an "
+                       f"offered candidate that it hits can no longer be chosen, and the query returns fewer than "
+                       f"min(batch_size, n_candidates) indices")
+
+
+def _mapping_names(f):
+    """names bound to the second result of _transform_candidates and what is derived from them by plain assignment"""
+    out = set()
+    for a in ast.walk(f.node):
+        if isinstance(a, ast.Assign) and isinstance(a.value, ast.Call) and callname(a.value) in ("_transform_candidates",) \
+                and isinstance(a.targets[0], (ast.Tuple, ast.List)) and len(a.targets[0].elts) >= 2 \
+                and isinstance(a.targets[0].elts[1], ast.Name):
+            out.add(a.targets[0].elts[1].id)
+    for _ in range(3):
+        for a in ast.walk(f.node):
+            if isinstance(a, ast.Assign) and names_in(a.value) & out:
+                for t in a.targets:
+                    for x in (t.elts if isinstance(t, (ast.Tuple, ast.List)) else [t]):
+                        if isinstance(x, ast.Name):
+                            out.add(x.id)
+    return out
+
+
+def check_zero_guarded_quotients(p, report, funcs):
+    n = 0
+    for f in funcs:
+        zero, lists = {}, {}
+        for a in ast.walk(f.node):
+            if not (isinstance(a, ast.Assign) and len(a.targets) == 1):
+                continue
+            pairs = []
+            if isinstance(a.targets[0], ast.Name):
+                pairs = [(a.targets[0], a.value)]
+            elif isinstance(a.targets[0], (ast.Tuple, ast.List)) and isinstance(a.value, (ast.Tuple, ast.List)) \
+                    and len(a.targets[0].elts) == len(a.value.elts):
+                pairs = [(t, v) for t, v in zip(a.targets[0].elts, a.value.elts) if isinstance(t, ast.Name)]
+            for t, v in pairs:
+                if isinstance(v, ast.Constant) and v.value == 0 and not isinstance(v.value, bool):
+                    zero[t.id] = a
+                if (isinstance(v, ast.List) and not v.elts) or (isinstance(v, ast.Call) and callname(v) == "list" and not v.args):
+                    lists[t.id] = a
+        if not zero and not lists:
+            continue
+        tree = FuncTree(f.node)
+
+        def conditional_only(name, is_list):
+            """every growth of the counter / list sits under an `if`"""
+            grows = []
+            for a in ast.walk(f.node):
+                if not is_list and isinstance(a, ast.AugAssign) and isinstance(a.target, ast.Name) and a.target.id == name:
+                    grows.append(a)
+                if not is_list and isinstance(a, ast.Assign) and a is not zero.get(name) \
+                        and any(isinstance(t, ast.Name) and t.id == name for t in a.targets):
+                    grows.append(a)
+                if is_list and isinstance(a, ast.Expr) and isinstance(a.value, ast.Call) and isinstance(a.value.func, ast.Attribute) \
+                        and a.value.func.attr in ("append", "extend") and base_name(a.value.func.value) == name:
+                    grows.append(a)
+            if not grows:
+                return False
+            return all(any(isinstance(o, ast.If) for (_s, o, _f, _i) in tree.ancestors(g)) for g in grows)
+
+        for d in ast.walk(f.node):
+            den = None
+            if isinstance(d, ast.BinOp) and isinstance(d.op, (ast.Div, ast.FloorDiv)):
+                den = d.right
+            elif isinstance(d, ast.AugAssign) and isinstance(d.op, (ast.Div, ast.FloorDiv)):
+                den = d.value
+            if den is None:
+                continue
+            nm = None
+            if isinstance(den, ast.Name) and den.id in zero and conditional_only(den.id, False):
+                nm = den.id
+            elif isinstance(den, ast.Call) and den.args and isinstance(den.args[0], ast.Name) and den.args[0].id in lists \
+                    and (callname(den) or "") in ("sum", "len", "nansum") and conditional_only(den.args[0].id, True):
+                nm = den.args[0].id
+            if nm is None:
+                continue
+            n += 1
+            st = tree.stmt_of(d)
+            guarded = False
+            for (s_, owner, field, idx) in tree.ancestors(st):
+                if isinstance(owner, ast.If) and nm in names_in(owner.test):
+                    guarded = True
+                # an earlier guard clause in the same block: `if nm == 0: return ...`
+                blk = getattr(owner, field, None)
+                if isinstance(blk, list):
+                    for prev in blk[:idx]:
+                        if isinstance(prev, ast.If) and nm in names_in(prev.test) and prev.body \
+                                and isinstance(prev.body[-1], (ast.Return, ast.Raise, ast.Continue)):
+                            guarded = True
+            report.add("R1.13", f.qual, f"quotient `{norm_stmt(st, 50)}` by the conditional count `{nm}` is zero-guarded",
+                       f"{f.file}:{d.lineno}", guarded,
+                       detail="under a test of the count" if guarded else
+                       f"`{nm}` starts at zero and grows only under emptiness tests, and the division is not under a test of it: "
+                       f"with nothing left to evaluate on it is 0/0 (ZeroDivisionError, or a NaN utility that simple_batch "
+                       f"never selects - the last candidate is not returned)")
+    report.analysed["quotients_by_conditional_counts"] = n
